@@ -27,6 +27,27 @@ func (i *interpreter) idealHash(kind string, in []value, outLen int) []value {
 	for _, b := range in {
 		inT = append(inT, i.byteTerm(b))
 	}
+	if !allc {
+		// the same input terms were hashed before on this path: same output (no fresh variables)
+		for _, prev := range p.hashApps[kind] {
+			if prev.concrete || len(prev.in) != len(inT) || len(prev.out) != outLen {
+				continue
+			}
+			same := true
+			for k := range inT {
+				if prev.in[k] != inT[k] {
+					same = false
+					break
+				}
+			}
+			if same {
+				for k := 0; k < outLen; k++ {
+					out[k] = prev.out[k]
+				}
+				return out
+			}
+		}
+	}
 	if allc {
 		raw := make([]byte, len(in))
 		for k, b := range in {
